@@ -42,12 +42,22 @@ def _classes():
             self._depth = getattr(self, "_depth", 0) + 1
             if self._depth == 1:
                 return h.begin_op(self, op)
+            # nested call (e.g. backstop_collect -> collect): remember where its documents start
+            self._marks = getattr(self, "_marks", [])
+            self._marks.append(len(h.all_docs))
             return None
 
         def _end(self, tok, exc):
             self._depth -= 1
+            h = type(self).H
             if tok is not None:
-                type(self).H.end_op(tok, exc)
+                h.end_op(tok, exc)
+            else:
+                start = self._marks.pop()
+                if exc is not None:
+                    # documents emitted by a nested call that raised (the caller may swallow the
+                    # exception: backstop_collect does) -- the oracles treat them like a failed collect's
+                    h.failed.update(id(d) for d in h.all_docs[start:])
 
     def wrap_async(name, describe):
         orig = getattr(RunBundler, name)
@@ -128,6 +138,8 @@ class Harness:
         self.entries = []  # guard level: {"msg": json, "docs": [...], "calls": [...], "err": None}
         self.cur = None  # current guard-level entry
         self.bundlers = []  # [{"id": id, "ops": [...], "env0": ..., "dets0": ...}]
+        self.all_docs = []  # every document emitted, in order
+        self.failed = set()  # id() of the documents emitted inside a nested bundler call that raised
         self.cur_op = None
         self.ledger = _Ledger(self)
         self.oplog = _EnvLog(self)
@@ -193,6 +205,7 @@ class Harness:
 
     def on_doc(self, name, doc):
         rec = (name, doc)
+        self.all_docs.append(doc)
         if self.cur is not None:
             self.cur["docs"].append(rec)
         if self.cur_op is not None:
@@ -527,7 +540,7 @@ def observe(case):
     um = {}
     g_entries = []
     for e in h.entries:
-        g_entries.append({"msg": _norm_op(e["msg"]), "docs": canon_real(e["docs"], um), "calls": e["calls"], "err": e["err"], "ops": [_norm_op(o) for o in e["ops"]], "srcs": None})
+        g_entries.append({"msg": _norm_op(e["msg"]), "docs": canon_real(e["docs"], um), "calls": e["calls"], "err": e["err"], "ops": [_norm_op(o) for o in e["ops"]], "srcs": None, "failed": [j for j, (_, d) in enumerate(e["docs"]) if id(d) in h.failed]})
     bundlers = []
     for b in h.bundlers:
         um2 = {}
@@ -535,6 +548,7 @@ def observe(case):
         open_docs = canon_real(b["open_docs"], um2)
         for o, t in zip(ops, b["ops"]):
             o["docs"] = canon_real(t["docs"], um2)
+            o["failed"] = [j for j, (_, d) in enumerate(t["docs"]) if id(d) in h.failed]
         bundlers.append({"envCfg": [[n, [list(kv) for kv in c]] for n, c in b["envCfg"]], "dets": b["dets"], "open": open_docs, "ops": ops})
     return {"entries": g_entries, "bundlers": bundlers}
 
